@@ -203,10 +203,37 @@ theorem link_parent_told_counterexample : ¬ link_parent_told_full Fixes.none :=
 
 /-! ### `restore_requested` -/
 
-/-- An operation on the tree requests what the property needs: afterwards a restore or an expose is pending (and the
-    flush will not be skipped), or the operation did not change what the cursor has to be. -/
-def Requests (t t' : Tree) : Prop :=
-  ((t'.root.needsRestore = true ∨ t'.root.needsExpose = true) ∧ t'.root.needsLater = true) ∨ cursorSpec t' = cursorSpec t
+/-- `Requests t t'` (Proof/WinFocus.lean): after the operation a restore or an expose is pending and the flush will not
+    be skipped, or the operation did not change what the cursor has to be.
+
+    The setters of the cursor record request what the property needs — for every tree, window and value. -/
+theorem restore_requested_cursor_position (t t' : Tree) (win : Nat) (line col : Int)
+    (h : setCursorPosition t win line col = .ok t') : Requests t t' :=
+  cursor_setter_requests (fun c => { c with line := line, col := col }) h
+
+theorem restore_requested_cursor_visible (t t' : Tree) (win : Nat) (value : Int)
+    (h : setCursorVisible t win value = .ok t') : Requests t t' :=
+  cursor_setter_requests (fun c => { c with visible := bit1 value }) h
+
+theorem restore_requested_cursor_shape (t t' : Tree) (win : Nat) (value : Int)
+    (h : setCursorShape t win value = .ok t') : Requests t t' :=
+  cursor_setter_requests (fun c => { c with shape := value }) h
+
+theorem restore_requested_cursor_blink (t t' : Tree) (win : Nat) (value : Int)
+    (h : setCursorBlink t win value = .ok t') : Requests t t' :=
+  cursor_setter_requests (fun c => { c with blink := if value ≠ 0 then 1 else 0 }) h
+
+/-- `take_focus` on a window whose parent chain is visible up to the top (`VisPath`) always leaves a restore
+    requested — for every tree and every state of the source. -/
+theorem restore_requested_take_focus (fx : Fixes) (t : Tree) (win : Nat) (r : Tree × List Event)
+    (h : takeFocus fx t win = .ok r) (hp : VisPath t win) :
+    r.1.root.needsRestore = true ∧ r.1.root.needsLater = true :=
+  focusGained_requests fx _ _ _ _ _ h hp
+
+/-- The clause for `take_focus` in full: also below an invisible ancestor, where nothing is requested and nothing has
+    to be (the focus chain from the root is untouched).  OPEN — the visible-path half is `restore_requested_take_focus`. -/
+def take_focus_requests_full (fx : Fixes) : Prop :=
+  ∀ (t : Tree) (win : Nat) (r : Tree × List Event), wfB t = true → takeFocus fx t win = .ok r → Requests t r.1
 
 /-- `hide`, `show`, `close` request what the property needs (full statement; false of the unchanged library when the
     window exposes nothing). -/
@@ -244,6 +271,78 @@ theorem hide_requests_counterexample : ¬ hide_requests_full Fixes.none := by
   have := hideCheck_of_full h outsideChildTree (by decide) 2
   revert this
   decide
+
+/-! ### the property over histories (full statement; OPEN) -/
+
+/-- The operations the property quantifies over.  A geometry change comes with the exposes of the old and the new area
+    in the parent (C01's proviso, adopted by the property's design). -/
+inductive Op where
+  | newWin (parent : Nat) (rect : Rect) (rootParent hidden lowest steal : Bool)
+  | focus (win : Nat)
+  | curpos (win : Nat) (line col : Int)
+  | curvis (win : Nat) (v : Int)
+  | curshape (win : Nat) (v : Int)
+  | curblink (win : Nat) (v : Int)
+  | notify (win : Nat) (v : Int)
+  | showW (win : Nat)
+  | hideW (win : Nat)
+  | closeW (win : Nat)
+  | restack (ch : Change) (win : Nat)
+  | move (win : Nat) (rect : Rect)
+  | exposeW (win : Nat) (rect : Option Rect)
+  | flush
+
+/-- Tree and terminal cursor. -/
+structure HSt where
+  tree : Tree
+  term : TermCursor := {}
+
+def stepOp (fx : Fixes) (s : HSt) : Op → Res HSt
+  | .newWin p r a b c d => do
+    let x ← newWindow s.tree (treeFuel s.tree) p r a b c d
+    pure { s with tree := x.1 }
+  | .focus w => do let x ← takeFocus fx s.tree w; pure { s with tree := x.1 }
+  | .curpos w l c => do let t ← setCursorPosition s.tree w l c; pure { s with tree := t }
+  | .curvis w v => do let t ← setCursorVisible s.tree w v; pure { s with tree := t }
+  | .curshape w v => do let t ← setCursorShape s.tree w v; pure { s with tree := t }
+  | .curblink w v => do let t ← setCursorBlink s.tree w v; pure { s with tree := t }
+  | .notify w v => do let t ← setFocusChildNotify s.tree w v; pure { s with tree := t }
+  | .showW w => do let t ← showWin fx s.tree w; pure { s with tree := t }
+  | .hideW w => do let t ← hideWin fx s.tree w; pure { s with tree := t }
+  | .closeW w => do let t ← closeWin fx s.tree w; pure { s with tree := t }
+  | .restack ch w => do let t ← requestHierarchyChange s.tree (treeFuel s.tree) ch w; pure { s with tree := t }
+  | .move w r => do
+    let ww ← WinTree.get s.tree w
+    let x ← setGeometry s.tree w r
+    match ww.parent with
+    | none => pure { s with tree := x.1 }
+    | some p => do
+      let t1 ← expose x.1 (treeFuel x.1) p (some ww.rect)
+      let t2 ← expose t1 (treeFuel t1) p (some r)
+      pure { s with tree := t2 }
+  | .exposeW w r => do let t ← expose s.tree (treeFuel s.tree) w r; pure { s with tree := t }
+  | .flush => do
+    let o ← WinFocus.flush fx s.tree
+    pure { tree := o.tree, term := s.term.applyAll o.calls }
+
+def runOps (fx : Fixes) (s : HSt) : List Op → Res HSt
+  | [] => pure s
+  | op :: rest => do
+    let s' ← stepOp fx s op
+    runOps fx s' rest
+
+/-- C15 over histories: from a fresh root window on an `l × c` terminal, after any history that ends in a flush and
+    that the library survives, the terminal cursor is what `cursorSpec` says of the tree.
+    OPEN for every `fx`: it is false of `Fixes.none` (the four counterexamples above are such histories); for the
+    repaired source it follows from `flush_cursor`, the preservation of `wfB`, and `restore_requested` for every
+    operation, of which the cursor setters and the visible-path `take_focus` are proved. -/
+def history_full (fx : Fixes) : Prop :=
+  ∀ (l c : Int) (ops : List Op) (s : HSt), 0 < l → 0 < c →
+    runOps fx { tree := newRoot l c } (ops ++ [.flush]) = .ok s → s.term.matches (cursorSpec s.tree) = true
+
+/-- The store invariant is preserved by every operation (OPEN; evaluated on every observed tree at run time). -/
+def wf_preserved_full (fx : Fixes) : Prop :=
+  ∀ (s s' : HSt) (op : Op), wfB s.tree = true → stepOp fx s op = .ok s' → wfB s'.tree = true
 
 /-! ### the source is as the model assumes (regenerated from the working tree on every run) -/
 
@@ -302,5 +401,12 @@ example : ∃ r, takeFocus Fixes.none demoTree 2 = .ok r ∧
     r.2 = [⟨3, .focusOut, 3⟩, ⟨1, .focusOut, 1⟩, ⟨2, .focusIn, 2⟩] := by
   refine ⟨_, rfl, by decide⟩
 example : holder childFocusedTree = some 1 := by decide
+example : VisPath demoTree 3 :=
+  .step (w := demoTree.wins[3]) rfl rfl rfl rfl (.step (w := demoTree.wins[1]) rfl rfl rfl rfl (.top (w := demoTree.wins[0]) rfl rfl rfl))
+/-- a short history through the history-level vocabulary: create, focus, flush -/
+example : ∃ s, runOps Fixes.none { tree := newRoot 6 10 }
+    [.newWin 0 ⟨1, 1, 3, 3⟩ false false false false, .curpos 1 1 2, .focus 1, .flush] = .ok s ∧
+    s.term.matches (cursorSpec s.tree) = true ∧ cursorSpec s.tree = some (2, 3, 1) := by
+  refine ⟨_, rfl, by decide, by decide⟩
 
 end Tickit.Props.C15
